@@ -58,6 +58,7 @@ type nb struct {
 	Val  int    `json:"value"`   // which value the node reports (majority)
 	Inv  int    `json:"invalid_kind,omitempty"`
 	Src  int    `json:"source_variant,omitempty"` // attestation data majority: same head, different source checkpoint
+	Zero bool   `json:"no_participation,omitempty"` // sync committee contribution: valid, with no participation bit set (a quiet subnet)
 }
 
 func (b nb) latency(r *rand.Rand) time.Duration {
@@ -134,6 +135,9 @@ func decodeKey(r phase0.Root) string {
 }
 
 func (n *fnode) key() string {
+	if n.b.Zero {
+		return fmt.Sprintf("v%d/r%d", n.b.Val+100, n.b.Rank) // told apart from a node with the same value and participation
+	}
 	if n.b.Src > 0 {
 		return fmt.Sprintf("v%d/r%d/s%d", n.b.Val, n.b.Rank, n.b.Src)
 	}
@@ -148,6 +152,9 @@ func (n *fnode) AttestationData(ctx context.Context, opts *api.AttestationDataOp
 		Source: &phase0.Checkpoint{Epoch: phase0.Epoch(n.b.Rank)}, Target: &phase0.Checkpoint{Epoch: phase0.Epoch(uint64(opts.Slot) / spe)}}
 	if n.b.Src > 0 {
 		d.Source.Epoch = phase0.Epoch(100 + n.b.Src)
+	}
+	if strings.Contains(n.strat, "head-distance") {
+		d.Source.Epoch = 5 // every node reports the same checkpoints: only the distance of the head decides
 	}
 	if n.b.Kind == "invalid" {
 		switch n.b.Inv % 4 {
@@ -190,10 +197,13 @@ func (n *fnode) SyncCommitteeContribution(ctx context.Context, _ *api.SyncCommit
 		return &api.Response[*altair.SyncCommitteeContribution]{Data: nil, Metadata: map[string]any{}}, nil
 	}
 	bits := bitfield.NewBitvector128()
-	for i := 0; i < n.b.Rank+1; i++ {
+	for i := 0; i < n.b.Rank+1 && !n.b.Zero; i++ {
 		bits.SetBitAt(uint64(i), true)
 	}
 	c := &altair.SyncCommitteeContribution{Slot: slot, BeaconBlockRoot: keyRoot(n.b.Val, n.b.Rank), AggregationBits: bits}
+	if n.b.Zero {
+		c.BeaconBlockRoot = keyRoot(n.b.Val+100, n.b.Rank)
+	}
 	return &api.Response[*altair.SyncCommitteeContribution]{Data: c, Metadata: map[string]any{}}, nil
 }
 
@@ -308,6 +318,15 @@ func strategies() []strategy {
 	out = append(out, strategy{Name: "attestationdata/best", Class: "best", Invalid: true, SoftDecides: true, build: func(nodes []*fnode, _ int) (func(context.Context) (string, error), error) {
 		s, err := adbest.New(context.Background(), adbest.WithLogLevel(zerolog.Disabled), adbest.WithClientMonitor(mon), adbest.WithProcessConcurrency(6), adbest.WithAttestationDataProviders(adProviders(nodes)),
 			adbest.WithTimeout(timeout), adbest.WithChainTime(clock), adbest.WithBlockRootToSlotCache(slotCache{"const"}))
+		if err != nil {
+			return nil, err
+		}
+		return adCall(s.AttestationData), nil
+	}})
+	// the same strategy with every node reporting the same checkpoints and heads at different distances (slot-30+rank)
+	out = append(out, strategy{Name: "attestationdata/best(head-distance)", Class: "best", Invalid: true, SoftDecides: true, build: func(nodes []*fnode, _ int) (func(context.Context) (string, error), error) {
+		s, err := adbest.New(context.Background(), adbest.WithLogLevel(zerolog.Disabled), adbest.WithClientMonitor(mon), adbest.WithProcessConcurrency(6), adbest.WithAttestationDataProviders(adProviders(nodes)),
+			adbest.WithTimeout(timeout), adbest.WithChainTime(clock), adbest.WithBlockRootToSlotCache(slotCache{}))
 		if err != nil {
 			return nil, err
 		}
